@@ -172,12 +172,13 @@ func spec_itemPre(g *Grammar, r int, d int, n int) string { panic("spec") }
 //@ modifies nothing
 //@ loop 0: invariant [C18] res == spec_itemPre(g, It.RuleIndex, It.Dot, idx0) && r == g.ProductoinRules[It.RuleIndex]
 
+// (also C09: drawing a state lists ALL its items and leaves the item sets of the automaton alone)
 //@ func (*Grammar).StateGraphNode
-//@ props C18
+//@ props C18 C09
 //@ results Node
 //@ requires wfRules(g) && okItems(g, IC)
-//@ ensures [C18] Node != nil && fresh(Node) && Node.StateNumber == IC.Index && len(Node.Children) == len(IC.Items)
-//@ ensures [C18] forall i int :: 0 <= i && i < len(IC.Items) ==> Node.Children[i] == spec_itemStr(g, IC.Items[i].RuleIndex, IC.Items[i].Dot)
+//@ ensures [C18,C09] Node != nil && fresh(Node) && Node.StateNumber == IC.Index && len(Node.Children) == len(IC.Items)
+//@ ensures [C18,C09] forall i int :: 0 <= i && i < len(IC.Items) ==> Node.Children[i] == spec_itemStr(g, IC.Items[i].RuleIndex, IC.Items[i].Dot)
 //@ modifies nothing
 //@ allocates graph.GraghNode
 //@ loop 0: invariant Node != nil && fresh(Node) && Node.StateNumber == IC.Index && len(Node.Children) == idx0 && unchanged(graph.GraghNode)
